@@ -24,7 +24,13 @@ def main():
     breaks = prop
     if "--breaks" in sys.argv:
         breaks = sys.argv[sys.argv.index("--breaks") + 1]
-    wt = f"/tmp/mut/{prop}"
+    base = "/tmp/mut"
+    prefix = "agent"
+    if "--dir" in sys.argv:
+        base = sys.argv[sys.argv.index("--dir") + 1]
+    if "--prefix" in sys.argv:
+        prefix = sys.argv[sys.argv.index("--prefix") + 1]
+    wt = f"{base}/{prop}"
     md = os.path.join(wt, "MUTANTS")
     patch = os.path.join(md, f"mutant{n}.diff")
     demo = os.path.join(md, f"demo{n}.rs")
@@ -79,7 +85,7 @@ def main():
         print(t.stdout[-800:])
         print(r.stdout[-600:] if not clean_ok else r2.stdout[-600:])
         return 1
-    mid = f"agent-{prop}-{n}"
+    mid = f"{prefix}-{prop}-{n}"
     d = os.path.join(ROOT, "seeded", mid)
     os.makedirs(d, exist_ok=True)
     shutil.copy(patch, os.path.join(d, "patch.diff"))
@@ -87,8 +93,8 @@ def main():
     shutil.copy(notes, os.path.join(d, "notes.md"))
     first = ""
     for line in open(notes):
-        if line.strip() and not line.startswith("#"):
-            first = line.strip()[:300]
+        if line.strip():
+            first = line.strip().lstrip("# ").strip()[:400]
             break
     meta = {"id": mid, "breaks": breaks, "summary": first, "needs": "see notes.md", "origin": f"sub-agent given only the text of {prop} and a scratch worktree",
             "confirmed": {"how": "tools/import_agent_mutant.py in the scratch worktree: git apply; cargo test --workspace --offline (passes); demonstration run with and without the change", "demo_cmd": run_demo, **log},
